@@ -16,7 +16,11 @@ CONSTANTS MaxDepth, MaxRoutes,     \* levels, own routes per level
           ResNames,                \* resource names
           MwTypes,                 \* middleware types (all unique + reorderable, the default)
           MwLists,                 \* allowed middleware lists per level / route (set of sequences)
-          Slashes, PatIds, Prefixes, RenderKinds
+          Slashes, PatIds, Prefixes, RenderKinds,
+          Reuses                   \* "none" | "before" | "after": the application object of a level is ALSO embedded into an
+                                   \* unrelated parent (own render factory, resources, middlewares, slash mode) before / after
+                                   \* it is embedded into the chain.  Binding is a pure function of (application, route):
+                                   \* the flattening below does not mention `reuse`, i.e. the other embedding has no effect.
 
 L(v) == [k |-> "lit", v |-> v]
 B(k, n) == [k |-> k, v |-> n]
@@ -33,8 +37,8 @@ LevelAttr == [res : SUBSET ResNames, mws : MwLists, slash : Slashes, fact : BOOL
 MwListsA == {<<>>, <<"A">>, <<"B">>, <<"A", "B">>, <<"B", "A">>}
 MwListsQ == {<<>>, <<"A">>}
 
-VARIABLES depth, attrs, routes, subAt, pc
-vars == <<depth, attrs, routes, subAt, pc>>
+VARIABLES depth, attrs, routes, subAt, pc, reuse
+vars == <<depth, attrs, routes, subAt, pc, reuse>>
 
 DefaultAttr == [res |-> {}, mws |-> <<>>, slash |-> "redirect", fact |-> FALSE, prefix |-> "p", inherit |-> TRUE, rebind |-> FALSE]
 
@@ -42,23 +46,26 @@ Init == /\ depth \in 1..MaxDepth
         /\ attrs = [k \in 1..MaxDepth |-> DefaultAttr]
         /\ routes = [k \in 1..MaxDepth |-> <<>>]
         /\ subAt = [k \in 1..MaxDepth |-> 0]
+        /\ reuse = [k \in 1..MaxDepth |-> "none"]
         /\ pc = [k \in 1..MaxDepth |-> "attrs"]      \* per level: "attrs" -> "routes" -> "done"
 
 SetAttrs(k, a) == /\ k <= depth /\ pc[k] = "attrs" /\ (\A j \in 1..(k - 1) : pc[j] = "done")
                   \* the innermost level embeds nothing: its embedding attributes are irrelevant
                   /\ (k = depth => a.prefix = DefaultAttr.prefix /\ a.inherit = DefaultAttr.inherit /\ a.rebind = DefaultAttr.rebind)
                   /\ attrs' = [attrs EXCEPT ![k] = a] /\ pc' = [pc EXCEPT ![k] = "routes"]
-                  /\ UNCHANGED <<depth, routes, subAt>>
+                  /\ UNCHANGED <<depth, routes, subAt, reuse>>
 AddRoute(k, d) == /\ k <= depth /\ pc[k] = "routes" /\ Len(routes[k]) < MaxRoutes
                   /\ routes' = [routes EXCEPT ![k] = Append(@, d)]
-                  /\ UNCHANGED <<depth, attrs, subAt, pc>>
-Close(k, at) == /\ k <= depth /\ pc[k] = "routes" /\ at \in 0..Len(routes[k])
+                  /\ UNCHANGED <<depth, attrs, subAt, pc, reuse>>
+Close(k, at, u) == /\ k <= depth /\ pc[k] = "routes" /\ at \in 0..Len(routes[k])
                 /\ (k = depth => at = 0)
+                /\ (k = 1 => u = "none")          \* the serving application is embedded nowhere
                 /\ subAt' = [subAt EXCEPT ![k] = at] /\ pc' = [pc EXCEPT ![k] = "done"]
+                /\ reuse' = [reuse EXCEPT ![k] = u]
                 /\ UNCHANGED <<depth, attrs, routes>>
 Next == \/ \E k \in 1..MaxDepth, a \in LevelAttr : SetAttrs(k, a)
         \/ \E k \in 1..MaxDepth, d \in RouteDecl : AddRoute(k, d)
-        \/ \E k \in 1..MaxDepth, at \in 0..MaxRoutes : Close(k, at)
+        \/ \E k \in 1..MaxDepth, at \in 0..MaxRoutes, u \in Reuses : Close(k, at, u)
 Spec == Init /\ [][Next]_vars
 Built == \A k \in 1..depth : pc[k] = "done"
 
@@ -160,6 +167,6 @@ FlatRec(r) == [id |-> r.id, els |-> r.els, branch |-> r.branch, mws |-> r.mws, s
                probe |-> ProbeSegs(r),
                obs |-> [plain |-> Observe(Table, ProbeSegs(r), r.branch),
                         flipped |-> Observe(Table, ProbeSegs(r), ~r.branch)]]
-Emit == Built => PrintT(<<"EMIT", ToJson([depth |-> depth, attrs |-> attrs, routes |-> routes, subAt |-> subAt,
+Emit == Built => PrintT(<<"EMIT", ToJson([depth |-> depth, attrs |-> attrs, routes |-> routes, subAt |-> subAt, reuse |-> reuse,
                                           table |-> [j \in DOMAIN Table |-> FlatRec(Table[j])]])>>)
 =============================================================================
